@@ -3,6 +3,7 @@ package main
 // Harness API (verif_* functions intercepted by name), time intrinsics, context / blob / deep-equal support.
 
 import (
+	"strconv"
 	"fmt"
 	"go/token"
 	"go/types"
@@ -213,6 +214,16 @@ func init() {
 		default:
 			p.knobs[name] = v
 		}
+		return nil
+	})
+	// verif_emit(name, value): conformance output. The value must be concrete; it is recorded in canonical text form so that the
+	// same case file run natively can be compared line by line.
+	api("verif_emit", func(p *Path, _ *frame, a []Value, pos token.Pos) Value {
+		name := constStr(p, a[0], "emit name")
+		e := p.eng
+		e.mu.Lock()
+		e.emits = append(e.emits, EmitRec{Name: name, Value: canonValue(a[1])})
+		e.mu.Unlock()
 		return nil
 	})
 	api("verif_log", func(p *Path, _ *frame, a []Value, pos token.Pos) Value {
@@ -764,4 +775,81 @@ func daysFromCivil(y, m, d int64) int64 {
 	doy := (153*mp+2)/5 + d - 1
 	doe := yoe*365 + yoe/4 - yoe/100 + doy
 	return era*146097 + doe - 719468
+}
+
+
+// EmitRec is one conformance output of a concrete run.
+type EmitRec struct {
+	Name  string `json:"name"`
+	Value string `json:"value"`
+}
+
+func canonTerm(t *Term) string {
+	if t == nil {
+		return "nil"
+	}
+	if !t.IsConst() {
+		return "SYMBOLIC:" + t.String()
+	}
+	switch t.sort {
+	case SBool:
+		if t.b {
+			return "true"
+		}
+		return "false"
+	case SInt:
+		return t.i.String()
+	case SString:
+		return strconv.Quote(t.s)
+	}
+	return "?"
+}
+
+func canonValue(v Value) string {
+	switch v := v.(type) {
+	case nil:
+		return "nil"
+	case Iface:
+		if v.T == nil {
+			return "nil"
+		}
+		return canonValue(v.V)
+	case *Term:
+		return canonTerm(v)
+	case IntV:
+		if v.Nil {
+			return "nil"
+		}
+		return canonTerm(v.V)
+	case DecV:
+		if v.Nil {
+			return "nil"
+		}
+		return canonTerm(v.V)
+	case TimeV:
+		return canonTerm(v.NS)
+	case *ErrObj:
+		if v == nil {
+			return "noerr"
+		}
+		return "err"
+	case *Value:
+		if v == nil {
+			return "nil"
+		}
+		return canonValue(*v)
+	case Struct:
+		var parts []string
+		for _, x := range v {
+			parts = append(parts, canonValue(x))
+		}
+		return "{" + strings.Join(parts, " ") + "}"
+	case SliceV:
+		var parts []string
+		for _, x := range v.A {
+			parts = append(parts, canonValue(x))
+		}
+		return "[" + strings.Join(parts, " ") + "]"
+	}
+	return "UNSUPPORTED:" + showValue(v, 3)
 }
